@@ -1780,6 +1780,10 @@ const AML_DEFS: &[&str] = &[
     "block \"IF_DATA\" taggedunion { \"T1\" int; \"T2\" int; \"FLAG\"; };",
     "block \"IF_DATA\" struct { uint; taggedunion { \"A\" int; \"B\" int; }; };",
     "block \"IF_DATA\" struct { char; int; long; int64; int[2]; };",
+    "enum E { \"A\", \"B\" = 5, \"C\" }; block \"IF_DATA\" struct { enum E; enum E; };",
+    "/* comment */ block \"IF_DATA\" struct { struct { uint; struct { int; }; }; // c\n uchar; };",
+    "taggedstruct TS { \"K\" uint; }; block \"IF_DATA\" struct { taggedstruct TS; uint; };",
+    "block \"IF_DATA\" taggedunion { block \"B\" taggedstruct { (block \"E\" struct { uint; })*; \"F\"; }; };",
 ];
 
 /// (conforming instance, instance with a single-token deviation) per definition
@@ -1792,6 +1796,10 @@ const AML_INST: &[(&str, &str)] = &[
     ("T1 1", "T1 1 T2 2"),                 // a taggedunion holds at most one member
     ("5 A 1", "5 A 1 B 2"),
     ("0x80 0xFFFE 0x80000000 0x8000000000000000 0x8000 0x7FFF", "0x80 0xFFFE 0x80000000 0x8000000000000000 0x8000"),   // signed types in hex with the sign bit set
+    ("A C", "A D"),                         // named enum with implicit and explicit values
+    ("1 -2 3", "1 -2"),                     // nested anonymous structs, comments inside the A2ML text
+    ("K 1 2", "K 1"),                       // taggedstruct referenced by name, followed by a scalar
+    ("/begin B /begin E 1 /end E /begin E 2 /end E F /end B", "/begin B /begin E 1 /end E /begin E x /end E /end B"),   // repeated block inside a block
 ];
 
 fn ifdata_document(def: usize, inst: &str, crlf: bool) -> String {
